@@ -48,9 +48,19 @@ def reach(a, targets, cut=(), member_flags=None):
             e = n.e
             if e.get('k') == 'vardecl' and e['v']['id'] in flags:
                 ini = e['v'].get('init')
-                envd[e['v']['id']] = bool(ini['v']) if ini is not None else None
+                envd[e['v']['id']] = bool(ini['v']) if (ini is not None and 'v' in ini) else None
             elif e.get('k') == 'bin' and e.get('op') == '=' and e['a'][0].get('k') == 'var' and e['a'][0]['id'] in flags:
-                envd[e['a'][0]['id']] = bool(e['a'][1]['v'])
+                rhs = e['a'][1]
+                vid = e['a'][0]['id']
+                if isinstance(rhs, dict) and rhs.get('k') in ('bool', 'int') and 'v' in rhs:
+                    envd[vid] = bool(rhs['v'])
+                elif isinstance(rhs, dict) and rhs.get('k') == 'bin' and rhs.get('op') == '&&':
+                    # flag = !(C) && flag  (the CFG's reading of `if (C) flag = false;`)
+                    envd[vid] = False if envd.get(vid) is False else None
+                elif isinstance(rhs, dict) and rhs.get('k') == 'bin' and rhs.get('op') == '||':
+                    envd[vid] = True if envd.get(vid) is True else None
+                else:
+                    envd[vid] = None
         elif n.kind == 'branch':
             c = n.e
             val = None
